@@ -3,6 +3,7 @@
    so every oracle rejection of the real code is a known class or a model drift. *)
 From Coq Require Import Strings.String.
 From DustDDS Require Import Base.Machine Lang.DeriveModel Lang.DeriveCorr Lang.DeriveDescProofs Lang.DeriveRtProofs.
+From DustDDS Require KeyHash.Md5Model.
 Open Scope Z_scope.
 
 (* what the model predicts for one value (the serializer is not modelled: any flag) *)
@@ -47,63 +48,49 @@ Proof.
   f_equal. apply IH; [exact Hr|]. now injection Hl.
 Qed.
 
-Lemma spec_sig_sig_of : forall t, has_vec_i8 t = false -> spec_sig t = sig_of t.
+Lemma spec_sig_sig_of : forall t, spec_sig t = sig_of t.
 Proof.
-  induction t using ty_ind'; intros Hv; try reflexivity.
-  - cbn [has_vec_i8] in Hv. cbn [spec_sig sig_of].
-    destruct t; try (rewrite IHt by exact Hv; reflexivity).
-    destruct p; try discriminate; reflexivity.
-  - cbn [has_vec_i8] in Hv. cbn [spec_sig sig_of]. now rewrite IHt.
-  - cbn [has_vec_i8] in Hv. cbn [spec_sig sig_of]. now apply IHt.
+  induction t using ty_ind'; try reflexivity; cbn [spec_sig sig_of]; now rewrite ?IHt.
 Qed.
 
-Lemma hash_id_nonneg : forall n, 0 <= hash_id n.
+(* the oracle's own reading of the @hashid rule is the model's *)
+Lemma hash_id28_hash_id : forall n, hash_id28 n = hash_id n.
 Proof.
-  intros n. unfold hash_id, Md5Model.md5.
-  generalize (Md5Model.md5N (map Z.to_N (string_bytes n))). intros l.
-  destruct l as [|b0 [|b1 [|b2 [|b3 r]]]]; cbn [map]; lia.
+  intros n. unfold hash_id28, hash_id. destruct (KeyHash.Md5Model.md5 (string_bytes n)) as [|b0 [|b1 [|b2 [|b3 r]]]]; cbv iota beta; try reflexivity.
+  f_equal. lia.
 Qed.
 
-(* the id rule of the oracle and of the macro coincide outside classes 1 and 2 *)
-Definition ids_clean (h : shead) (idx : nat) (m : mhead) : bool :=
-  if m_hashid m then hash_id (member_name h idx m) <? 268435456
+(* the id rule of the oracle and of the macro coincide outside class 1 *)
+Definition ids_clean (h : shead) (m : mhead) : bool :=
+  if m_hashid m then true
   else match s_ext h with Mutable => true | _ => match m_id m with None => true | Some _ => false end end.
 
-Fixpoint ids_clean_from (h : shead) (idx : nat) (ms : list mhead) : bool :=
-  match ms with [] => true | m :: r => ids_clean h idx m && ids_clean_from h (S idx) r end.
-
 Lemma spec_ids_struct_ids : forall h ms idx next,
-  ids_clean_from h idx ms = true ->
+  forallb (ids_clean h) ms = true ->
   spec_ids_from h idx next ms = struct_ids_from h idx next ms.
 Proof.
   intros h. induction ms as [|m r IH]; intros idx next H; [reflexivity|].
-  cbn [ids_clean_from] in H. apply andb_true_iff in H as [Hm Hr]. cbn [spec_ids_from struct_ids_from].
+  cbn [forallb] in H. apply andb_true_iff in H as [Hm Hr]. cbn [spec_ids_from struct_ids_from].
   unfold ids_clean in Hm. destruct (m_hashid m) eqn:Hh.
-  - apply Z.ltb_lt in Hm. unfold hash_id28.
-    assert (H0 := hash_id_nonneg (member_name h idx m)).
-    rewrite Z.mod_small by lia. f_equal. now apply IH.
+  - rewrite hash_id28_hash_id. f_equal. now apply IH.
   - destruct (s_ext h) eqn:Hx.
     + destruct (m_id m); [discriminate|]. f_equal. now apply IH.
     + destruct (m_id m); [discriminate|]. f_equal. now apply IH.
     + destruct (m_id m); (f_equal; now apply IH).
 Qed.
 
-(* classes 1 and 2 of the correspondence are exactly the negation of [ids_clean_from] *)
-Lemma classes_1_2_clean : forall h ms,
-  kn_explicit_id_ignored (TStruct h ms) = false -> kn_hash_unmasked (TStruct h ms) = false ->
-  ids_clean_from h 0 (map fst ms) = true.
+(* class 1 of the correspondence is exactly the negation of [ids_clean] *)
+Lemma class_1_clean : forall h ms,
+  kn_explicit_id_ignored (TStruct h ms) = false -> forallb (ids_clean h) (map fst ms) = true.
 Proof.
-  intros h ms H1 H2. cbn [kn_explicit_id_ignored kn_hash_unmasked] in H1, H2.
-  revert H2. generalize 0%nat. induction ms as [|[m t] r IH]; intros idx H2; [reflexivity|].
-  apply orb_false_iff in H2 as [H2m H2r].
-  cbn [map fst ids_clean_from]. rewrite IH.
-  - rewrite andb_true_r. unfold ids_clean. destruct (m_hashid m) eqn:Hh.
-    + cbn [andb] in H2m. apply Z.leb_gt in H2m. now apply Z.ltb_lt.
-    + destruct (s_ext h); try reflexivity;
-        (cbn [existsb fst] in H1; apply orb_false_iff in H1 as [H1m _]; rewrite Hh in H1m; cbn [negb andb] in H1m;
-         destruct (m_id m); [discriminate|reflexivity]).
+  intros h ms H1. cbn [kn_explicit_id_ignored] in H1.
+  induction ms as [|[m t] r IH]; [reflexivity|].
+  cbn [map fst forallb]. rewrite IH.
+  - rewrite andb_true_r. unfold ids_clean. destruct (m_hashid m) eqn:Hh; [reflexivity|].
+    destruct (s_ext h); try reflexivity;
+      (cbn [existsb fst] in H1; apply orb_false_iff in H1 as [H1m _]; rewrite Hh in H1m; cbn [negb andb] in H1m;
+       destruct (m_id m); [discriminate|reflexivity]).
   - destruct (s_ext h); try exact H1; (cbn [existsb] in H1; apply orb_false_iff in H1 as [_ H1]; exact H1).
-  - exact H2r.
 Qed.
 
 (* ------------------------------------------------- round trips (any declared type) *)
@@ -157,12 +144,11 @@ Proof. intros t H. unfold kn_ns in H. destruct t; cbn [any_ty] in H; apply orb_f
 
 Theorem oracle_sound_struct : forall h ms d vs,
   describe (TStruct h ms) = Some d -> wf_ty (TStruct h ms) = true ->
-  kn_explicit_id_ignored (TStruct h ms) = false -> kn_hash_unmasked (TStruct h ms) = false ->
-  kn_ns (TStruct h ms) = false -> existsb (fun m => has_vec_i8 (snd m)) ms = false ->
+  kn_explicit_id_ignored (TStruct h ms) = false -> kn_ns (TStruct h ms) = false ->
   Forall (fun p => has_type (TStruct h ms) (fst p) = true) vs ->
   C40_oracle_ok (model_case (TStruct h ms) d vs) = true.
 Proof.
-  intros h ms d vs Hd Hwf Hk1 Hk2 Hns Hv8 Hvs.
+  intros h ms d vs Hd Hwf Hk1 Hns Hvs.
   unfold C40_oracle_ok, C40_checks, model_case. cbn [c_ty c_desc c_rts].
   rewrite forallb_app. apply andb_true_iff. split; [|now apply rt_checks_ok].
   destruct (describe_struct h ms) as (d' & Hd' & Hkind & Hname & Hext & Hnest & _ & Hn & Hid & Hix & Hty & Hkey & Hopt & Hmu & Htc).
@@ -188,13 +174,11 @@ Proof.
   rewrite ?map_map. rewrite (list_eqb_refl tck_eqb) by apply tck_eqb_refl. cbn [andb].
   (* member types *)
   assert (Hsig : map (fun m : mhead * ty => spec_sig (snd m)) ms = map (fun m => sig_of (snd m)) ms).
-  { apply map_ext_in. intros m Hm. apply spec_sig_sig_of.
-    destruct (has_vec_i8 (snd m)) eqn:E; [|reflexivity].
-    assert (existsb (fun m => has_vec_i8 (snd m)) ms = true) by (apply existsb_exists; eauto). congruence. }
+  { apply map_ext. intros m. apply spec_sig_sig_of. }
   rewrite Hsig. rewrite (list_eqb_refl tsig_eqb) by apply tsig_eqb_refl. cbn [andb].
   (* ids *)
   unfold struct_ids.
-  rewrite (spec_ids_struct_ids h (map fst ms) 0 0 (classes_1_2_clean h ms Hk1 Hk2)).
+  rewrite (spec_ids_struct_ids h (map fst ms) 0 0 (class_1_clean h ms Hk1)).
   rewrite Hpub by (rewrite struct_ids_from_length; exact Hlen).
   rewrite (list_eqb_refl Z.eqb) by apply Z.eqb_refl. cbn [andb].
   (* distinct *)
@@ -233,12 +217,11 @@ Qed.
 Theorem oracle_sound_union : forall h vs d rs,
   describe (TUnion h vs) = Some d -> wf_ty (TUnion h vs) = true ->
   kn_ns (TUnion h vs) = false ->
-  existsb (fun v => match snd v with Some t' => has_vec_i8 t' | None => false end) vs = false ->
   forallb (fun v => forallb in_i32b (v_cases (fst v))) vs = true ->
   Forall (fun p => has_type (TUnion h vs) (fst p) = true) rs ->
   C40_oracle_ok (model_case (TUnion h vs) d rs) = true.
 Proof.
-  intros h vs d rs Hd Hwf Hns Hv8 Hrange Hrs.
+  intros h vs d rs Hd Hwf Hns Hrange Hrs.
   unfold C40_oracle_ok, C40_checks, model_case. cbn [c_ty c_desc c_rts].
   rewrite forallb_app. apply andb_true_iff. split; [|now apply rt_checks_ok].
   destruct (describe_union h vs) as (dm & vm & Hd' & Hdn & Hdi & Hdk & Hdmu & Hdt & Hn & Hid & Hdl & Hty & Hlab).
@@ -254,11 +237,7 @@ Proof.
   rewrite nodupb_union_ids, (labels_ok_model vs vm Hrange Hlab). cbn [andb].
   assert (Hsig : map (fun v : vhead * option ty => match snd v with Some t' => spec_sig t' | None => Sig K_NONE "" [] None end) vs
                = map (fun v => match snd v with Some t' => sig_of t' | None => Sig K_NONE "" [] None end) vs).
-  { apply map_ext_in. intros v Hv. destruct (snd v) as [t'|] eqn:E; [|reflexivity]. apply spec_sig_sig_of.
-    destruct (has_vec_i8 t') eqn:E8; [|reflexivity].
-    assert (existsb (fun v => match snd v with Some t' => has_vec_i8 t' | None => false end) vs = true).
-    { apply existsb_exists. exists v. split; [exact Hv|]. now rewrite E. }
-    congruence. }
+  { apply map_ext. intros v. destruct (snd v) as [t'|]; [|reflexivity]. apply spec_sig_sig_of. }
   rewrite Hsig, (list_eqb_refl tsig_eqb) by apply tsig_eqb_refl. reflexivity.
 Qed.
 
